@@ -300,6 +300,7 @@ func main() {
 	}
 	structural(pkgs)
 	indexSites(pkgs)
+	ixBodies(pkgs)
 	if p := pkgs["cors"]; p != nil {
 		icfgWrites(p)
 	}
